@@ -200,6 +200,15 @@ def r_rm_directory(g, m, which):
         if not ds:
             return None
         return ('iso-ok-%s-missing' % ns, {'op': 'rm_directory', 'iso_path': g.rng.choice(ds), '%s_path' % ns: '/nosuch%d' % g._u()}, True)
+    if which == 'second-nonempty-udf':
+        if not m.cfg.udf:
+            return None
+        ds = [p for p, n in m.ns['iso'].items() if n.kind == 'dir' and not m.children('iso', p) and m.depth(p) % 8 != 0]
+        us = [p for p, n in m.ns['udf'].items() if n.kind == 'dir' and m.children('udf', p)]
+        if not ds or not us:
+            return None
+        one = [p for p in us if len(m.children('udf', p)) == 1]
+        return ('iso-ok-udf-non-empty', {'op': 'rm_directory', 'iso_path': g.rng.choice(ds), 'udf_path': g.rng.choice(one or us)}, True)
     if which == 'second-nonempty-joliet':
         if not m.cfg.joliet:
             return None
@@ -422,7 +431,7 @@ for api in ('add_fp', 'add_directory'):
         RECIPES.append((api, r_add_bad_name(api), w))
 for w in ('missing', 'dir', 'boot', 'udf-missing'):
     RECIPES.append(('rm_file', r_rm_file, w))
-for w in ('non-empty', 'missing', 'root', 'file', 'second-missing-joliet', 'second-missing-udf', 'second-nonempty-joliet'):
+for w in ('non-empty', 'missing', 'root', 'file', 'second-missing-joliet', 'second-missing-udf', 'second-nonempty-joliet', 'second-nonempty-udf'):
     RECIPES.append(('rm_directory', r_rm_directory, w))
 for w in ('missing-old', 'dup-new', 'missing-parent-new', 'rr-missing', 'dup-new-udf', 'dup-new-joliet', 'old-is-dir', 'rm-dir', 'rm-missing'):
     RECIPES.append(('add_hard_link', r_hard_link, w))
